@@ -71,6 +71,10 @@ type e4Scenario struct {
 	Ops      []e4Op      `json:"ops,omitempty"`
 	Faults   bool        `json:"faults,omitempty"`
 	Procs    int         `json:"concurrent_processes,omitempty"` // C10: this many resolvers share one cold cache at the same time
+	// OneResolver (C11): after the history has been checked operation by operation with a fresh
+	// resolver each, one long-lived resolver performs the same operations on the same
+	// requirement sets; it must arrive where the fresh ones did.
+	OneResolver bool `json:"one_long_lived_resolver,omitempty"`
 	Reuse    bool        `json:"resolver_reused,omitempty"`      // C10: the resolver first serves another root
 	Strategy int         `json:"strategy"`
 	Sticky   int         `json:"sticky"`
@@ -1079,6 +1083,12 @@ func c11Gen(r *rand.Rand, tier string) any {
 		sc.Procs = 2 + r.IntN(2) // every operation is performed by this many processes at once, on one cache
 	case 1:
 		sc.Faults = true // every operation is first attempted under faults, then again by the same resolver
+	case 2:
+		sc.OneResolver = true
+		// a long-lived process tends to ask the same thing again later
+		if gets := len(sc.Ops); gets > 0 && r.IntN(2) == 0 {
+			sc.Ops = append(sc.Ops, sc.Ops[r.IntN(gets)])
+		}
 	}
 	return sc
 }
@@ -1205,6 +1215,7 @@ func c11Exec(scAny any, c *simcheck.Ctx) *simcheck.Violation {
 		})
 		return out, err, simFailure(s)
 	}
+	var steps []c11Step
 	root := sc.Root
 	oldBL, err, v := buildList(root)
 	if v != nil {
@@ -1423,9 +1434,39 @@ func c11Exec(scAny any, c *simcheck.Ctx) *simcheck.Violation {
 			}
 			return simcheck.V(cls, "%s gave {%s}; repeating it on the result gave {%s}", what, reqsString(newReqs), reqsString(again))
 		}
+		steps = append(steps, c11Step{op, root, newReqs})
 		root, oldBL = newRoot, newBL
 	}
+	if sc.OneResolver && len(steps) > 1 {
+		// the same operations, on the same requirement sets, by one resolver that lives on
+		outs := make([]map[string]project.RequirementConfig, len(steps))
+		errs := make([]error, len(steps))
+		s, _, _ := e.call("cache", false, func(res *Resolver) error {
+			for i, st := range steps {
+				outs[i], errs[i] = do(st.op, st.root, res)
+			}
+			return nil
+		})
+		if v := simFailure(s); v != nil {
+			return v
+		}
+		c.St.Count("histories_repeated_by_one_long_lived_resolver", 1)
+		for i, st := range steps {
+			if errs[i] != nil {
+				return simcheck.V("long-lived-resolver-differs", "operation %d (%s %s) on requirements {%s}: a resolver that had performed the %d operations before it ended with error %v; a fresh resolver gives {%s}", i, st.op.Op, st.op.Query, reqsString(sc.config(st.root).Requirements), i, errs[i], reqsString(st.out))
+			}
+			if reqsString(outs[i]) != reqsString(st.out) {
+				return simcheck.V("long-lived-resolver-differs", "operation %d (%s %s) on requirements {%s}: a resolver that had performed the %d operations before it gives {%s}; a fresh resolver gives {%s}", i, st.op.Op, st.op.Query, reqsString(sc.config(st.root).Requirements), i, reqsString(outs[i]), reqsString(st.out))
+			}
+		}
+	}
 	return nil
+}
+
+type c11Step struct {
+	op   e4Op
+	root []e4Req
+	out  map[string]project.RequirementConfig
 }
 
 // resolveQuery gives the version a query denotes according to its documented meaning
